@@ -6,7 +6,8 @@
    conversions toR / toN; the operators of the remaining kinds are arbitrary. *)
 From Coq Require Import List Arith Bool Lia ZArith Reals Lra.
 From TLV Require Import Base.PyList Base.Tensor Base.Ops Model.Prox Proofs.ProxProofs Proofs.ProxProofsHard Proofs.ProxProofsSimplex
-  Proofs.ProxProofsMono Proofs.ProxProofsRefute.
+  Proofs.ProxProofsMono Proofs.ProxProofsRefute Proofs.ProxProofsIso Proofs.ProxProofsUni.
+From TLV Require Import Proofs.ConstraintsProofsUni Model.ConstraintsOps.
 From TLV Require Import Model.Constraints Proofs.ConstraintsProofs Proofs.ConstraintsProofsLoop Proofs.ConstraintsProofsKeys.
 Import ListNotations.
 Open Scope R_scope.
@@ -75,8 +76,14 @@ Section Feasible.
     | KNormSparsity => flatwise (fun v => normalized_sparsity_with Rops (norm2 (hard_thresholding Rops (toN p) v)) (toN p) v) x
     | KSoftSparsity => colwise Rops (soft_sparsity_prox Rops (toR p)) x
     | KNormalize => flatwise (normalize Rops) x
+    | KUnimodal => cols_of Rops (unimodality_cols Rops (cols_of Rops x))     (* unimodality_prox acts on the whole matrix *)
     | _ => other k p x
     end.
+
+  (* op_c12 is the generic operator family of Model/ConstraintsOps.v at the reals (norm = sqrt of the sum of squares): the term
+     the correspondence executes at Qops on the recorded operator calls is the same term *)
+  Lemma op_c12_is_op_gen k p x : op_c12 k p x = op_gen Rops norm2 toR toN other k p x.
+  Proof using toR toN other. destruct k; reflexivity. Qed.
 
   (* the constraint sets, on a matrix given by its rows *)
   Definition all_entries (Q : R -> Prop) (y : mat) : Prop := Forall Q (concat y).
@@ -90,18 +97,23 @@ Section Feasible.
     unfold cols_of. destruct x as [|r rs]; [intros []|]. rewrite in_map_iff. intros (j & <- & _). apply map_length.
   Qed.
 
+  (* the transpose of a list of columns that are all as long as x has rows is rectangular *)
+  Lemma transposed_intro (Q : list R -> Prop) (x : mat) (Z : list (list R)) :
+    (forall z, In z Z -> length z = length x) -> Forall Q Z -> transposed_columns Q (cols_of Rops Z).
+  Proof.
+    intros Lz HQ. exists Z. split; [reflexivity|]. split; [|exact HQ].
+    apply Forall_forall. intros z Hz. rewrite (Lz z Hz).
+    destruct Z as [|z0 Zr] eqn:EZ; [contradiction|].
+    unfold cols_of. rewrite map_length, seq_length. symmetry. apply Lz. left; reflexivity.
+  Qed.
+
   (* a column-wise operator that preserves lengths yields a rectangular transpose *)
   Lemma colwise_columns (f : list R -> list R) (Q : list R -> Prop) x :
     (forall c, length (f c) = length c) -> (forall c, In c (cols_of Rops x) -> Q (f c)) ->
     transposed_columns Q (colwise Rops f x).
   Proof.
-    intros Lf HQ. unfold colwise. exists (map f (cols_of Rops x)). split; [reflexivity|].
-    assert (Lz : forall z, In z (map f (cols_of Rops x)) -> length z = length x).
-    { intros z Hz. apply in_map_iff in Hz. destruct Hz as (c & <- & Hc). rewrite Lf. apply cols_len. exact Hc. }
-    split.
-    - apply Forall_forall. intros z Hz. rewrite (Lz z Hz).
-      destruct (map f (cols_of Rops x)) as [|z0 Zr] eqn:EZ; [contradiction|].
-      unfold cols_of. rewrite map_length, seq_length. symmetry. apply Lz. left; reflexivity.
+    intros Lf HQ. unfold colwise. apply (transposed_intro Q x).
+    - intros z Hz. apply in_map_iff in Hz. destruct Hz as (c & <- & Hc). rewrite Lf. apply cols_len. exact Hc.
     - apply Forall_forall. intros z Hz. apply in_map_iff in Hz. destruct Hz as (c & <- & Hc). apply HQ. exact Hc.
   Qed.
 
@@ -113,14 +125,14 @@ Section Feasible.
   Qed.
 
   Lemma nonneg_range p x : all_entries (fun a => 0 <= a) (op_c12 KNonNeg p x).
-  Proof.
+  Proof using toR toN other.
     unfold all_entries. simpl. destruct (flatwise_prefix (non_negative Rops) x) as (rest & [E | E]).
-    - pose proof (nonneg_feasible (concat x)) as F. rewrite E in F. apply Forall_app in F. tauto.
+    - pose proof (nonneg_feasible (concat x)) as F. rewrite E in F. apply Forall_app in F. exact (proj1 F).
     - rewrite E. constructor.
   Qed.
 
   Lemma hard_range p x : (nnzR (concat (op_c12 KHardSparsity p x)) <= toN p)%nat.
-  Proof.
+  Proof using toN.
     simpl. destruct (flatwise_prefix (hard_thresholding Rops (toN p)) x) as (rest & [E | E]).
     - pose proof (hard_sparse (toN p) (concat x)) as F. rewrite E, nnzR_app in F. lia.
     - rewrite E. simpl. unfold nnzR. simpl. lia.
@@ -190,6 +202,60 @@ Section Feasible.
       rewrite H in Hk. simpl in Hk. lra.
   Qed.
 
+  (* unimodality: every column of the output is unimodal, whatever the number of columns (Proofs/ConstraintsProofsUni.v) *)
+  Lemma unimodal_range p x : transposed_columns unimodalP (op_c12 KUnimodal p x).
+  Proof.
+    simpl. destruct (unimodality_cols_feasible (cols_of Rops x)) as (F & L). apply (transposed_intro unimodalP x); [|exact F].
+    intros z Hz. assert (Hl : In (length z) (map (@length R) (unimodality_cols Rops (cols_of Rops x)))) by (apply in_map; exact Hz).
+    rewrite L in Hl. apply in_map_iff in Hl. destruct Hl as (c & <- & Hc). apply cols_len. exact Hc.
+  Qed.
+
+  (* the count of non-zeros of any column is at most the count of the whole matrix: the whole-matrix bound of hard_sparsity /
+     normalized_sparsity implies the column-wise bound the property states *)
+  Definition colj (j : nat) (y : mat) : list R := map (fun row : list R => nth j row 0) y.
+  Lemma col_nnz_le (y : mat) j : (nnzR (colj j y) <= nnzR (concat y))%nat.
+  Proof using Type.
+    induction y as [|r y IH]; [cbn; lia|]. unfold colj in *. cbn [map concat]. rewrite nnzR_app.
+    assert (H1 : Nat.le (nnzR [nth j r 0]) (nnzR r)).
+    { unfold nnzR. cbn [filter]. destruct (Req_EM_T (nth j r 0) 0) as [E|NE]; [cbn; lia|]. cbn [length].
+      destruct (Nat.lt_ge_cases j (length r)) as [Hj|Hj]; [|rewrite nth_overflow in NE by lia; exfalso; apply NE; reflexivity].
+      assert (Hin : In (nth j r 0) (filter (fun x => if Req_EM_T x 0 then false else true) r)).
+      { apply filter_In. split; [apply nth_In; exact Hj|]. destruct (Req_EM_T (nth j r 0) 0); [congruence | reflexivity]. }
+      destruct (filter _ r); [destruct Hin | cbn; lia]. }
+    change (nth j r 0 :: map (fun row : list R => nth j row 0) y) with ([nth j r 0] ++ map (fun row : list R => nth j row 0) y).
+    rewrite nnzR_app. lia.
+  Qed.
+
+  Lemma cols_nnz_le (y : mat) c : In c (cols_of Rops y) -> (nnzR c <= nnzR (concat y))%nat.
+  Proof using Type.
+    unfold cols_of. destruct y as [|r rs]; [intros []|]. rewrite in_map_iff. intros (j & <- & _). apply (col_nnz_le (r :: rs) j).
+  Qed.
+
+  (* the constraint set of each kind, and: every operator of op_c12 maps into the set of its kind.  For normalize and
+     normalized_sparsity the set is left `True` here: their feasibility needs side conditions on the operator's input
+     (normalize_range, normalsparsity_range); the kinds that are penalties have no constraint set. *)
+  Definition feas_c12 (k : kind) (p : P) (y : mat) : Prop :=
+    match k with
+    | KNonNeg => all_entries (fun a => 0 <= a) y
+    | KHardSparsity => (nnzR (concat y) <= toN p)%nat /\ forall c, In c (cols_of Rops y) -> (nnzR c <= toN p)%nat
+    | KSimplex => 0 < toR p -> transposed_columns (fun z => Forall (fun a => 0 <= a) z /\ lsum Rops z = toR p) y
+    | KMonotone => transposed_columns ndec y
+    | KSoftSparsity => 0 < toR p -> transposed_columns (fun z => l1n Rops z <= toR p) y
+    | KUnimodal => transposed_columns unimodalP y
+    | _ => True
+    end.
+
+  Theorem op_c12_feasible k p v : feas_c12 k p (op_c12 k p v).
+  Proof using toR toN other.
+    destruct k; try exact I.
+    - apply nonneg_range.
+    - apply unimodal_range.
+    - intros Hp. apply simplex_range, Hp.
+    - intros Hp. apply soft_sparsity_range, Hp.
+    - apply monotone_range.
+    - split; [apply hard_range|]. intros c Hc. pose proof (cols_nnz_le _ c Hc). pose proof (hard_range p v). lia.
+  Qed.
+
   (* ---- composition with the skeleton *)
   Section CP.
     Variables (dM : mat) (msub madd : mat -> mat -> mat) (n : nat) (sp : list (kind * @zspec P)) (E : env (M := mat))
@@ -231,6 +297,26 @@ Section Feasible.
     Proof.
       intros Hin Hr Hp. destruct (zcp_requested_in_range truthy dM op_c12 msub madd n sp E i0 fixed n_outer n_inner zero fs m _ s p run Hm Hupd Hin Hr) as (v & ->).
       apply soft_sparsity_range. exact Hp.
+    Qed.
+
+    Theorem cp_unimodal s p : In (KUnimodal, s) sp -> zrequested truthy n s m p ->
+      transposed_columns unimodalP (nth m fs dM).
+    Proof.
+      intros Hin Hr. destruct (zcp_requested_in_range truthy dM op_c12 msub madd n sp E i0 fixed n_outer n_inner zero fs m _ s p run Hm Hupd Hin Hr) as (v & ->).
+      apply unimodal_range.
+    Qed.
+
+    Theorem cp_hard_sparsity_columns s p : In (KHardSparsity, s) sp -> zrequested truthy n s m p ->
+      forall c, In c (cols_of Rops (nth m fs dM)) -> (nnzR c <= toN p)%nat.
+    Proof.
+      intros Hin Hr c Hc. pose proof (cp_hard_sparsity s p Hin Hr). pose proof (cols_nnz_le _ c Hc). lia.
+    Qed.
+
+    (* all kinds at once: the returned factor of a mode lies in the constraint set of the kind requested for it *)
+    Theorem cp_feasible k s p : In (k, s) sp -> zrequested truthy n s m p -> feas_c12 k p (nth m fs dM).
+    Proof.
+      intros Hin Hr.
+      exact (zcp_feasible truthy dM op_c12 msub madd feas_c12 n sp E i0 fixed n_outer n_inner zero fs m k s p op_c12_feasible run Hm Hupd Hin Hr).
     Qed.
 
     Theorem cp_normalize s p : In (KNormalize, s) sp -> zrequested truthy n s m p ->
